@@ -1206,9 +1206,13 @@ Returns:
         cls = self.__class__
         result = cls.__new__(cls)
         memo[id(self)] = result
+        # the decorated cost is bound to the evaluation counter and monitor;
+        # copy them together so the copy counts (and logs) its own evaluations
+        bound = ('_cost', '_fcalls', '_evalmon')
+        bound = dill.copy(dict((k,v) for (k,v) in self.__dict__.items() if k in bound))
         for k, v in self.__dict__.items():
-            if v is self._cost:
-                setattr(result, k, tuple(dill.copy(i) for i in v))
+            if k in bound:
+                setattr(result, k, bound[k])
             else:
                 try: #XXX: work-around instancemethods in python2.6
                     setattr(result, k, copy.deepcopy(v, memo))
